@@ -149,6 +149,8 @@ def wrap(data, mode, pem=False):
         return array.array("B", data)
     if mode == 5:
         return memoryview(bytearray(data)).cast("b")     # signed char view
+    if mode == 6 and len(data) % 2 == 0 and len(data) >= 4:
+        return memoryview(bytearray(data)).cast("B", shape=[len(data) // 2, 2])      # two-dimensional view
     return data
 
 
@@ -282,7 +284,7 @@ def run_unit(ctx, name, **kw):
         eps = entry_points(cname)
         seen = set()
         for ep_name, seed in seeds_for(cname)[kw["group"]]:
-            for md in range(6):
+            for md in range(7):
                 probe(ctx, cname, ep_name, eps[ep_name], seed, mode=md, valid=True)
             big = len(seed) > 120
             muts = itertools.chain(
@@ -296,7 +298,7 @@ def run_unit(ctx, name, **kw):
                 seen.add((ep_name, m))
                 i += 1
                 ctx.event("mut:" + kind)
-                probe(ctx, cname, ep_name, eps[ep_name], m, mode=i % 6, kindhint=kind)
+                probe(ctx, cname, ep_name, eps[ep_name], m, mode=i % 7, kindhint=kind)
             ctx.sample({"curve": cname, "entry": ep_name, "seed": seed.hex()[:80], "mutants": i})
     elif name == "pem":
         cname = kw["curve"]
